@@ -1,4 +1,6 @@
 import RV.C01.Lemmas
+import RV.C01.LemNSimple
+import RV.C01.LemGen
 /-
   C01 — property theorems.
 
@@ -500,6 +502,338 @@ theorem simple_refine_history : Statement_simple_refine_history := by
   · intro s p o
     exact ⟨nodup_striples hI _, fun t => by rw [mem_striples hI, h]⟩
 
+/-! ### Round g: the nested dictionaries themselves (`NModel.lean`)
+
+  `NMem` / `NSMem` keep the three indexes as the code has them — three-level insertion-ordered dictionaries with the
+  `try/except` insertion ladder, leaf-only `del`, and the level-by-level walks of `triples()` — and reuse the context
+  bookkeeping of `Mem`.  The statements below are about the observations computed ON THE NESTED MODEL (which is what
+  the driver runs and the correspondence compares with the real store on every line). -/
+
+/-- every answer of the store API, computed on the nested-dictionary model, agrees with `(Q, K)` -/
+structure NStoreObsAgree (n : NMem) (S : QK) : Prop where
+  no_raise : n.cx.err = false ∧ ∀ pat, n.triplesRaises pat = false
+  /-- `store.triples(pattern, context)`: the walk of the nested index chosen by the shape, filtered by the has-context test -/
+  triples : ∀ (pat : Pat) (ctx : Option Nat),
+    (n.triples pat ctx).Nodup ∧ ∀ t, t ∈ n.triples pat ctx ↔ (S.sees ctx t ∧ pat.matches t = true)
+  triple_ctxs : ∀ (pat : Pat) (ctx : Option Nat) (e : Triple × List Nat), e ∈ n.triplesC pat ctx →
+    e.1 ∈ n.triples pat ctx ∧ e.2.Nodup ∧ ∀ k, k ∈ e.2 ↔ S.Q e.1 k
+  len : ∀ (ctx : Option Nat) (l : List Triple), l.Nodup → (∀ t, t ∈ l ↔ S.sees ctx t) → n.len ctx = l.length
+  /-- `t in g` (the fully bound walk: three dictionary probes, then the has-context test) -/
+  contains : ∀ t g, n.contains t g = true ↔ S.Q t g
+  contexts_all : (n.contexts (none, none, none)).Nodup ∧ ∀ k, k ∈ n.contexts (none, none, none) ↔ S.K k
+  contexts_of : ∀ (s p o : Nat),
+    (n.contexts (some s, some p, some o)).Nodup ∧ ∀ k, k ∈ n.contexts (some s, some p, some o) ↔ S.Q (s, p, o) k
+  contexts_partial : ∀ (s p o : Option Nat), ¬ (s = none ∧ p = none ∧ o = none) →
+    ¬ (s.isSome = true ∧ p.isSome = true ∧ o.isSome = true) → n.contexts (s, p, o) = []
+  /-- the three nested indexes are coherent: `spo[s][p][o]`, `pos[p][o][s]`, `osp[o][s][p]` exist together, exactly
+      for the triples that are in some graph (emptied inner dictionaries may remain, stale leaf keys may not) -/
+  index : ∀ (s p o : Nat), (idxHas n.ispo s p o = true ↔ ∃ g, S.Q (s, p, o) g) ∧
+    idxHas n.ipos p o s = idxHas n.ispo s p o ∧ idxHas n.iosp o s p = idxHas n.ispo s p o
+
+/-- `nested_refines_quadset`: for every finite history of store-level and `Graph`-level calls, the `Memory` model over
+    NESTED dictionaries (insertion ladders, leaf-only deletion, level-by-level walks, context compression, …) keeps
+    unique keys at every dictionary level and answers every observation exactly as the pair `(Q, K)` the history implies -/
+def Statement_nested_refines_quadset : Prop :=
+  ∀ (ops : List StOp),
+    NWF (NMem.init.stRun ops) ∧ NStoreObsAgree (NMem.init.stRun ops) (QK.run QK.empty ops)
+
+/-- the same for `SimpleMemory` over nested dictionaries -/
+def Statement_nested_simple_refines : Prop :=
+  ∀ (ops : List SOp),
+    let n := NSMem.init.run ops
+    let S := SSpec.run (fun _ => False) ops
+    NSWF n ∧ n.err = false ∧
+    (∀ (s p o : Nat), (idxHas n.ispo s p o = true ↔ S (s, p, o)) ∧
+        idxHas n.ipos p o s = idxHas n.ispo s p o ∧ idxHas n.iosp o s p = idxHas n.ispo s p o) ∧
+    (∀ (l : List Triple), l.Nodup → (∀ t, t ∈ l ↔ S t) → n.len = l.length) ∧
+    (∀ t, n.contains t = true ↔ S t) ∧
+    (∀ (s p o : Option Nat), (n.triples (s, p, o)).Nodup ∧
+        ∀ t, t ∈ n.triples (s, p, o) ↔ (S t ∧ Pat.matches (s, p, o) t = true))
+
+/-- an operand of `+ - * ^` given by a NESTED model -/
+inductive NOperand
+  | mem (ops : List StOp) (g : Nat)
+  | simple (ops : List SOp)
+
+def NOperand.view : NOperand → View
+  | .mem ops g => View.ofNMem (NMem.init.stRun ops) g
+  | .simple ops => View.ofNSimple (NSMem.init.run ops)
+
+def NOperand.set : NOperand → Triple → Prop
+  | .mem ops g => fun t => (QK.run QK.empty ops).Q t g
+  | .simple ops => SSpec.run (fun _ => False) ops
+
+/-- the binary operators reading their operands through the nested models (iteration = the walks, `in` = the probes) -/
+def Statement_binop_nested : Prop :=
+  ∀ (a b : NOperand) (r : Nat),
+    (∀ t c, abs (a.view.union b.view r) t c ↔ ((a.set t ∨ b.set t) ∧ c = r)) ∧
+    (∀ t c, abs (a.view.diff b.view r) t c ↔ ((a.set t ∧ ¬ b.set t) ∧ c = r)) ∧
+    (∀ t c, abs (a.view.inter b.view r) t c ↔ ((a.set t ∧ b.set t) ∧ c = r)) ∧
+    (∀ t c, abs (a.view.xor b.view r) t c ↔ (((a.set t ∧ ¬ b.set t) ∨ (b.set t ∧ ¬ a.set t)) ∧ c = r))
+
+theorem stSim_of_equiv {m m' : Mem} {S : QK} (h : StSim m S) (e : MEquiv m m') (n1 : m'.spo.Nodup)
+    (n2 : m'.pos.Nodup) (n3 : m'.osp.Nodup) : StSim m' S := by
+  refine ⟨inv_of_equiv h.inv e n1 n2 n3, e.allc ▸ h.nd, ?_, ?_⟩
+  · intro t g
+    rw [abs_eq_InG, ← InG_of_equiv e, ← abs_eq_InG]
+    exact h.q t g
+  · intro k; rw [← e.allc]; exact h.k k
+
+/-- simulation: the flattening of the nested model is in `StSim` with the specification, and the dictionaries are well formed -/
+structure NSim (n : NMem) (S : QK) : Prop where
+  wf : NWF n
+  sim : StSim n.toMem S
+
+theorem nsim_init : NSim NMem.init QK.empty :=
+  ⟨nwf_init, ⟨inv_init, by simp [NMem.init, NMem.toMem], fun t g => by simp [abs, NMem.init, NMem.toMem, flat, QK.empty, QSet.empty],
+    fun k => by simp [NMem.init, NMem.toMem, QK.empty]⟩⟩
+
+theorem nsim_step {n : NMem} {S : QK} (h : NSim n S) (op : StOp) : NSim (n.stStep op) (S.step op) := by
+  obtain ⟨e, hw⟩ := stStep_equiv h.wf op
+  obtain ⟨n1, n2, n3⟩ := nodup_toMem hw
+  exact ⟨hw, stSim_of_equiv (stSim_step h.sim op) e n1 n2 n3⟩
+
+theorem nsim_run : ∀ (ops : List StOp) (n : NMem) (S : QK), NSim n S → NSim (n.stRun ops) (S.run ops) := by
+  intro ops
+  induction ops with
+  | nil => intro n S h; exact h
+  | cons op r ih => intro n S h; exact ih _ _ (nsim_step h op)
+
+theorem ntriples_eq {n : NMem} (h : NWF n) (pat : Pat) (c : Ctx) : n.triples pat c = triples n.toMem pat c := by
+  have hf : (n.cands pat).filter (fun t => n.hasCtx t c) = (cands n.toMem pat).filter (fun t => hasCtx n.toMem t c) := by
+    rw [cands_eq h]
+    apply List.filter_congr
+    intro t _; exact hasCtx_eq h t c
+  obtain ⟨ps, pp, po⟩ := pat
+  cases ps <;> cases pp <;> cases po <;> first | rfl | exact hf
+
+theorem ntriplesRaises_eq {n : NMem} (h : NWF n) (pat : Pat) : n.triplesRaises pat = triplesRaises n.toMem pat := by
+  have hf : (n.cands pat).any (fun t => n.hasCtxRaises t) = (cands n.toMem pat).any (fun t => hasCtxRaises n.toMem t) := by
+    rw [cands_eq h]
+    congr 1
+    funext t; exact hasCtxRaises_eq h t
+  obtain ⟨ps, pp, po⟩ := pat
+  cases ps <;> cases pp <;> cases po <;> first | rfl | exact hf
+
+theorem ncontains_eq {n : NMem} (h : NWF n) (t : Triple) (g : Nat) : n.contains t g = n.toMem.contains t g := by
+  simp only [NMem.contains, Mem.contains, ntriples_eq h]
+
+theorem nstoreObsAgree_of {n : NMem} {S : QK} (h : NSim n S) : NStoreObsAgree n S := by
+  have hw := h.wf
+  have hO := storeObsAgree_of h.sim
+  have hI := h.sim.inv
+  have hq := h.sim.q
+  refine ⟨⟨hO.no_raise.1, fun pat => by rw [ntriplesRaises_eq hw]; exact hO.no_raise.2 pat⟩, ?_, ?_, ?_, ?_, hO.contexts_all, ?_, ?_, ?_⟩
+  · intro pat ctx; rw [ntriples_eq hw]; exact hO.triples pat ctx
+  · intro pat ctx e he
+    have : n.triplesC pat ctx = n.toMem.triplesC pat ctx := by
+      simp only [NMem.triplesC, Mem.triplesC, ntriples_eq hw]; rfl
+    rw [ntriples_eq hw]
+    exact hO.triple_ctxs pat ctx e (this ▸ he)
+  · intro ctx l hnd hl; exact hO.len ctx l hnd hl
+  · intro t g
+    rw [ncontains_eq hw, contains_iff hI, ← abs_eq_InG]
+    exact hq t g
+  · intro s p o
+    have : n.contexts (some s, some p, some o) = n.toMem.contexts (some s, some p, some o) := by
+      simp only [NMem.contexts, Mem.contexts]
+      have hb : idxHas n.ispo s p o = decide ((s, p, o) ∈ n.toMem.spo) := has_eq hw (s, p, o)
+      by_cases e : (s, p, o) ∈ n.toMem.spo
+      · simp only [hb, e, decide_true, if_true]; rfl
+      · simp only [hb, e, decide_false, if_false, Bool.false_eq_true]
+    rw [this]; exact hO.contexts_of s p o
+  · intro s p o h1 h2
+    cases s <;> cases p <;> cases o <;> simp_all [NMem.contexts]
+  · intro s p o
+    have h1 : idxHas n.ispo s p o = true ↔ (s, p, o) ∈ n.toMem.spo := (mem_spo_iff hw (s, p, o)).symm
+    have h2 : idxHas n.ipos p o s = true ↔ (s, p, o) ∈ n.toMem.pos := (mem_pos_iff hw (s, p, o)).symm
+    have h3 : idxHas n.iosp o s p = true ↔ (s, p, o) ∈ n.toMem.osp := (mem_osp_iff hw (s, p, o)).symm
+    refine ⟨?_, ?_, ?_⟩
+    · rw [h1]
+      constructor
+      · intro hin
+        obtain ⟨g, hg⟩ := (hI.ctx_ok _ hin).2
+        exact ⟨g, (hq _ g).1 ⟨hin, hg⟩⟩
+      · rintro ⟨g, hg⟩; exact ((hq _ g).2 hg).1
+    · rw [Bool.eq_iff_iff, h2, h1]; exact hI.pos_iff _
+    · rw [Bool.eq_iff_iff, h3, h1]; exact hI.osp_iff _
+
+theorem nested_refines_quadset : Statement_nested_refines_quadset := by
+  intro ops
+  have h := nsim_run ops _ _ nsim_init
+  exact ⟨h.wf, nstoreObsAgree_of h⟩
+
+/-- simulation for `SimpleMemory` -/
+theorem nsimple_run : ∀ (ops : List SOp) (n : NSMem) (S : TSet), NSWF n → SInv n.toSMem → (∀ t, t ∈ n.toSMem.spo ↔ S t) →
+    NSWF (n.run ops) ∧ SInv (n.run ops).toSMem ∧ ∀ t, t ∈ (n.run ops).toSMem.spo ↔ SSpec.run S ops t := by
+  intro ops
+  induction ops with
+  | nil => intro n S hw hI hS; exact ⟨hw, hI, hS⟩
+  | cons op r ih =>
+    intro n S hw hI hS
+    obtain ⟨hI1, h1⟩ := simple_refine_run [op] n.toSMem S hI hS
+    obtain ⟨e, hw1⟩ := sstep_equiv hw op
+    obtain ⟨n1, n2, n3⟩ := nodup_toSMem hw1
+    have hI2 : SInv (n.step op).toSMem := sinv_of_equiv hI1 e n1 n2 n3
+    have h2 : ∀ t, t ∈ (n.step op).toSMem.spo ↔ SSpec.step S op t := fun t => (e.spo t).symm.trans (h1 t)
+    exact ih _ _ hw1 hI2 h2
+
+theorem nested_simple_refines : Statement_nested_simple_refines := by
+  intro ops
+  obtain ⟨hw, hI, h⟩ := nsimple_run ops NSMem.init (fun _ => False) nswf_init
+    (show SInv NSMem.init.toSMem from sinv_init) (fun t => by simp [NSMem.toSMem, NSMem.init, flat])
+  have htri : ∀ pat, (NSMem.init.run ops).triples pat = (NSMem.init.run ops).toSMem.triples pat := striples_toSMem hw
+  refine ⟨hw, hI.err, ?_, ?_, ?_, ?_⟩
+  · intro s p o
+    have h1 : idxHas (NSMem.init.run ops).ispo s p o = true ↔ (s, p, o) ∈ (NSMem.init.run ops).toSMem.spo :=
+      (mem_flat_iff hw.spo s p o).symm
+    have h2 : idxHas (NSMem.init.run ops).ipos p o s = true ↔ (s, p, o) ∈ (NSMem.init.run ops).toSMem.pos :=
+      (mem_map_rotPOS hw.pos (s, p, o)).symm
+    have h3 : idxHas (NSMem.init.run ops).iosp o s p = true ↔ (s, p, o) ∈ (NSMem.init.run ops).toSMem.osp :=
+      (mem_map_rotOSP hw.osp (s, p, o)).symm
+    refine ⟨h1.trans (h _), ?_, ?_⟩
+    · rw [Bool.eq_iff_iff, h2, h1]; exact hI.pos_iff _
+    · rw [Bool.eq_iff_iff, h3, h1]; exact hI.osp_iff _
+  · intro l hnd hl
+    unfold NSMem.len
+    rw [htri]
+    apply List.Perm.length_eq
+    rw [List.perm_ext_iff_of_nodup (nodup_striples hI _) hnd]
+    intro t
+    rw [mem_striples hI, hl, h]
+    simp [allPat, Pat.matches, matchPos]
+  · intro t
+    have : (NSMem.init.run ops).contains t = (NSMem.init.run ops).toSMem.contains t := by
+      simp only [NSMem.contains, SMem.contains, htri]
+    rw [this, scontains_iff hI, h]
+  · intro s p o
+    rw [htri]
+    exact ⟨nodup_striples hI _, fun t => by rw [mem_striples hI, h]⟩
+
+theorem noperand_ok (a : NOperand) : a.view.Coherent ∧ ∀ t, t ∈ a.view.xs ↔ a.set t := by
+  cases a with
+  | mem ops g =>
+    have h := nsim_run ops _ _ nsim_init
+    have hv : View.ofNMem (NMem.init.stRun ops) g = View.ofMem (NMem.init.stRun ops).toMem g := by
+      simp only [View.ofNMem, View.ofMem, NMem.graph, Mem.graph, ntriples_eq h.wf]
+      congr 1
+      funext x; exact ncontains_eq h.wf x g
+    show (View.ofNMem (NMem.init.stRun ops) g).Coherent ∧ ∀ t, t ∈ (View.ofNMem (NMem.init.stRun ops) g).xs ↔ _
+    rw [hv]
+    refine ⟨coherent_ofMem h.sim.inv g, fun t => ?_⟩
+    show t ∈ (NMem.init.stRun ops).toMem.graph g ↔ _
+    rw [mem_graph h.sim.inv, ← abs_eq_InG]
+    exact h.sim.q t g
+  | simple ops =>
+    obtain ⟨hw, hI, h⟩ := nsimple_run ops NSMem.init (fun _ => False) nswf_init
+      (show SInv NSMem.init.toSMem from sinv_init) (fun t => by simp [NSMem.toSMem, NSMem.init, flat])
+    have hv : View.ofNSimple (NSMem.init.run ops) = View.ofSimple (NSMem.init.run ops).toSMem := by
+      simp only [View.ofNSimple, View.ofSimple, striples_toSMem hw]
+      congr 1
+      funext x
+      simp only [NSMem.contains, SMem.contains, striples_toSMem hw]
+    show (View.ofNSimple (NSMem.init.run ops)).Coherent ∧ ∀ t, t ∈ (View.ofNSimple (NSMem.init.run ops)).xs ↔ _
+    rw [hv]
+    refine ⟨coherent_ofSimple hI, fun t => ?_⟩
+    rw [mem_ofSimple hI]
+    exact h t
+
+theorem binop_nested : Statement_binop_nested := by
+  intro a b r
+  obtain ⟨ha, hsa⟩ := noperand_ok a
+  obtain ⟨hb, hsb⟩ := noperand_ok b
+  have h := view_ops_spec a.view b.view ha hb r
+  simp only [abs_eq_InG]
+  simp only [hsa, hsb] at h
+  exact ⟨h.1, h.2.1, h.2.2.1, h.2.2.2.1⟩
+
+/-! ### Round g: the generator as it is — level-by-level key copies (`NGen`, `NModel.lean`)
+
+  `iter_sound` above is about an over-approximating machine (the environment may load any candidate that is in the
+  selected index at that moment).  `NGen` is the real discipline: `list(d.keys())` one level at a time, live lookup
+  `d[k]` of each copied key when the loop reaches it, has-context test on the live store before each `yield`, start copy
+  of `__contextTriples[ctx]` for the all-unbound shape; the generator body begins at the first `next()`. -/
+
+/-- for every history before, every pattern shape, every schedule of store-level / Graph-level mutations and `next()`
+    calls: no step raises (in particular no `KeyError` from `d[k]` on a copied key, no `None.keys()`), and every yielded
+    triple matches the pattern and was in the iterated graph in one of the states since the generator began -/
+def Statement_gen_sound : Prop :=
+  ∀ (pre : List StOp) (pat : Pat) (g : Nat) (evs : List GEv),
+    gschedRaises (NMem.init.stRun pre) (NGen.new pat (some g)) evs = false ∧
+    ∀ y ∈ gyields [] (NMem.init.stRun pre) (NGen.new pat (some g)) evs,
+      pat.matches y.1 = true ∧ ∃ n' ∈ y.2, abs n'.toMem y.1 g
+
+/-- with nothing interleaved the generator, `next()` after `next()`, produces exactly `store.triples(pattern, context)`
+    (`NMem.triples`, which `nested_refines_quadset` proves duplicate-free and equal to the set): the full run `drain`
+    is that list, every `next()` yields the head of what remains and leaves the rest, and exhaustion means nothing remains -/
+def Statement_gen_quiescent : Prop :=
+  ∀ (n : NMem) (pat : Pat) (req : Ctx),
+    n.drain pat req = n.triples pat req ∧
+    ∀ (work : List Work),
+      (∀ t, (n.runGen pat req work).2 = some t →
+          n.runAll pat req work = t :: n.runAll pat req (n.runGen pat req work).1) ∧
+      ((n.runGen pat req work).2 = none → n.runAll pat req work = [])
+
+/-- `for t in g` on the concrete machine: if the generator begins (first `next()`) on the state `n`, then whatever
+    mutations are interleaved afterwards, the k-th `next()` yields the k-th element of `list(g)` as it was at that
+    moment — the concrete counterpart of `iter_all_is_snapshot` -/
+def Statement_gen_snapshot : Prop :=
+  ∀ (n : NMem) (g : Nat) (evs : List GEv) (hist : List NMem),
+    (gyields hist n (NGen.new allPat (some g)) (.next :: evs)).map (fun y => y.1)
+      = (n.graph g).take (gcountNext evs + 1)
+
+theorem gen_snapshot : Statement_gen_snapshot := fun n g evs hist => gyields_fast n g evs hist
+
+theorem gen_sound : Statement_gen_sound := by
+  intro pre pat g evs
+  have hg := ngood_stRun pre _ ngood_init
+  have h := gyields_sound g pat evs [] (NMem.init.stRun pre) (NGen.new pat (some g)) hg rfl rfl
+    (fun h => by simp [NGen.new] at h)
+  exact h
+
+theorem gen_quiescent : Statement_gen_quiescent :=
+  fun n pat req => ⟨drain_eq_triples n pat req, runGen_runAll n pat req⟩
+
+/-- `Graph.triples_choices` / `Store.triples_choices` (a list of terms in ONE position of the pattern; the empty list
+    is the wildcard): exactly the visible triples that match the two other positions and whose term in the list's
+    position is one of the choices — each once when the choices are distinct (a repeated choice repeats its triples) -/
+def Statement_triples_choices : Prop :=
+  ∀ (ops : List StOp) (sl : Slot) (choices : List Nat) (a b : Option Nat) (ctx : Option Nat),
+    (∀ t, t ∈ (NMem.init.stRun ops).triplesChoices sl choices a b ctx ↔
+        ((QK.run QK.empty ops).sees ctx t ∧ (sl.pat a b none).matches t = true ∧
+          (choices = [] ∨ sl.get t ∈ choices))) ∧
+    (choices.Nodup → ((NMem.init.stRun ops).triplesChoices sl choices a b ctx).Nodup)
+
+theorem triples_choices : Statement_triples_choices := by
+  intro ops sl choices a b ctx
+  have hO := nstoreObsAgree_of (nsim_run ops _ _ nsim_init)
+  unfold NMem.triplesChoices
+  cases choices with
+  | nil =>
+    simp only [List.isEmpty_nil, if_true, true_or, and_true]
+    exact ⟨(hO.triples _ ctx).2, fun _ => (hO.triples _ ctx).1⟩
+  | cons c r =>
+    simp only [List.isEmpty_cons, Bool.false_eq_true, if_false, reduceCtorEq, false_or]
+    constructor
+    · intro t
+      simp only [List.mem_flatMap, (hO.triples _ ctx).2, slot_matches]
+      constructor
+      · rintro ⟨x, hx, h1, h2, h3⟩; exact ⟨h1, h2, h3 ▸ hx⟩
+      · rintro ⟨h1, h2, h3⟩; exact ⟨_, h3, h1, h2, rfl⟩
+    · intro hnd
+      refine nodup_flatMap_disjoint hnd (fun x _ => (hO.triples _ ctx).1) ?_
+      intro x _ y _ hxy t hx hy
+      have e1 := ((slot_matches sl a b x t).1 (((hO.triples _ ctx).2 t).1 hx).2).2
+      have e2 := ((slot_matches sl a b y t).1 (((hO.triples _ ctx).2 t).1 hy).2).2
+      exact hxy (e1.symm.trans e2)
+
+/-- a schedule on which the concrete generator really walks two levels between mutations: `(1,?,?)` on graph 0;
+    `(1,2,4)` is removed before the inner copy `[3,4]` reaches it, `(1,5,6)` is added under a NEW second-level key after
+    the outer copy `[2]` was taken (not seen), `(1,2,7)` under the already expanded key (not seen either) -/
+example : (gyields [] (NMem.init.stRun [.add (1, 2, 3) 0, .add (1, 2, 4) 0]) (NGen.new (some 1, none, none) (some 0))
+    [.next, .mutate (.remove (some 1, some 2, some 4) (some 0)), .mutate (.add (1, 5, 6) 0), .mutate (.add (1, 2, 7) 0),
+     .next, .next]).map (·.1) = [(1, 2, 3)] := by decide
+
 /-! ### Non-vacuity: a reachable state with one context set compressed to the default and one explicit -/
 
 def exOps : List Op :=
@@ -520,6 +854,14 @@ example : (Mem.init.stRun exStOps).contexts (none, none, none) = [1, 2, 7] ∧
     (Mem.init.stRun exStOps).triplesC (none, some 2, none) none = [((1, 2, 3), [1])] ∧
     (Mem.init.stRun exStOps).contexts (some 1, some 2, some 3) = [1] ∧
     (Mem.init.stRun exStOps).len none = 1 ∧ (Mem.init.stRun exStOps).err = false := by decide
+
+/-- the nested indexes after the store-level history `exStOps`: only LEAF keys were deleted — the emptied inner
+    dictionaries `spo[4][2]`, `spo[5][2]`, `osp[3][4]`, `osp[3][5]` are still there — and the walks ignore them -/
+example : (NMem.init.stRun exStOps).ispo = [(1, [(2, [3])]), (4, [(2, [])]), (5, [(2, [])])] ∧
+    (NMem.init.stRun exStOps).ipos = [(2, [(3, [1])])] ∧
+    (NMem.init.stRun exStOps).iosp = [(3, [(1, [2]), (4, []), (5, [])])] ∧
+    (NMem.init.stRun exStOps).drain (none, none, some 3) none = [(1, 2, 3)] ∧
+    (NMem.init.stRun exStOps).triplesChoices .s [5, 1, 1] (some 2) none (some 1) = [(1, 2, 3), (1, 2, 3)] := by decide
 
 /-- operands on different kinds of store: a graph of a `Memory` after a store-level history and a `SimpleMemory` graph -/
 example : ((Operand.mem exStOps 1).view.xor (Operand.simple [.add (1, 2, 3), .add (9, 9, 9), .remove (none, some 9, none),
